@@ -1527,6 +1527,12 @@ Vector ScriptVariable::vectorValue() const
 
 void ScriptVariable::setArrayAt(const ScriptVariable& index, const ScriptVariable& value)
 {
+    if (type != variableType_e::Ref)
+    {
+        // not a reference to a variable (like the value returned by a field getter)
+        throw ScriptVariableErrors::InvalidAppliedType("[]", GetTypeName());
+    }
+
     return m_data.refValue->setArrayAtRef(index, value);
 }
 
